@@ -447,9 +447,9 @@ Qed.
 
 Theorem c02_oracle_on_model c :
   forallb (fun ds => case_set_ok (set_of (ops_of ds))) (hc_sends c) = true ->
-  C02_holds_on c (hist_model cur c) = true.
+  C02_holds_on_h c (hist_model cur c) = true.
 Proof.
-  intros H. unfold C02_holds_on, hist_model, hist_of. cbn [fst].
+  intros H. unfold C02_holds_on_h, hist_model, hist_of. cbn [fst].
   apply c02_walk_model; [|exact H].
   unfold st_wf, init_exp. cbn [x_seq]. now rewrite u32_idem.
 Qed.
